@@ -32,7 +32,20 @@ pub fn check_error_opt(e: &ErrInfo, op: &Op, os_text_exempt: bool) -> Option<(St
         return Some(("placeholder-path".into(), format!("error path not filled: {}", e.display)));
     }
     for t in INNER_TOKENS {
-        if e.path.contains(t) || e.display.contains(t) {
+        // ".whiteout" is the overlay's bookkeeping DIRECTORY: it counts as a whole component only
+        // (".whiteouts" or ".whiteout.bak" are ordinary names of the caller)
+        let hit = |text: &str| -> bool {
+            if *t == ".whiteout" {
+                text.match_indices(".whiteout").any(|(k, _)| {
+                    let before_ok = k == 0 || text.as_bytes()[k - 1] == b'/';
+                    let after = text.as_bytes().get(k + 9).copied();
+                    before_ok && matches!(after, None | Some(b'/') | Some(b'\'') | Some(b' ') | Some(b':') | Some(b'"'))
+                })
+            } else {
+                text.contains(t)
+            }
+        };
+        if hit(&e.path) || hit(&e.display) {
             return Some((format!("inner-namespace-leak:{}", t.trim_matches('\'')), format!("error mentions an underlying-layer name: path='{}' display={}", e.path, e.display)));
         }
     }
@@ -50,11 +63,13 @@ pub fn check_error_opt(e: &ErrInfo, op: &Op, os_text_exempt: bool) -> Option<(St
 
 /// a time setter on an entry that is missing from an existing directory: not-found (or
 /// not-supported where the setter is not implemented), whatever layer reports it
-fn missing_target_class(m: &Model, c: &str, got: &Res) -> Option<(String, String)> {
+fn missing_target_class(m: &Model, c: &str, got: &Res, supported: Option<bool>) -> Option<(String, String)> {
     if c.is_empty() || m.exists(c) || !m.is_dir(&parent_of(c)) {
         return None;
     }
     match got {
+        // where the receiving layer implements the setter, "not supported" is the wrong answer
+        Res::Err(e) if e.class == ErrClass::NotSupported && supported == Some(true) => Some(("missing-target:want=Err[NotFound]|got=Err(NotSupported)".to_string(), format!("the entry is missing from an existing directory and the stack implements this setter; it answered {}", e.display))),
         Res::Err(e) if matches!(e.class, ErrClass::NotFound | ErrClass::NotSupported) => None,
         Res::Err(e) if e.io_only => None,
         other => Some((format!("missing-target:want=Err[NotFound|NotSupported]|got={}", other.class()), format!("the entry is missing from an existing directory; the setter answered {}", short(other)))),
@@ -136,7 +151,7 @@ fn async_mirror(cfg: &RunCfg, out: &mut RunOut) -> Option<(String, String, usize
         }
         if let Op::SetTime(p, ..) = op {
             let c = canon(&p.s).unwrap_or_default();
-            if let Some((k, d)) = missing_target_class(&before.m[0], &c, &got) {
+            if let Some((k, d)) = missing_target_class(&before.m[0], &c, &got, None) {
                 return Some((format!("C12|{}|{}|{}|{}", shape, op.kind(), tcl, k), format!("async port, step {} {:?}: {}", i, op, d), i));
             }
             continue;
@@ -211,7 +226,8 @@ fn run_sync(cfg: &RunCfg, trace: bool) -> RunOut {
         // classification
         if let Op::SetTime(p, f, ..) = op {
             let c = canon(&p.s).unwrap_or_default();
-            if let Some((k, d)) = missing_target_class(&before.m[0], &c, got) {
+            let sup = crate::mon_time::receiver_support(&cx.cfg.specs[0], *f);
+            if let Some((k, d)) = missing_target_class(&before.m[0], &c, got, sup) {
                 let key = format!("C12|{}|{}|{}|{}", shape, op.kind(), tcl, k);
                 cx.violate(i, key, format!("step {} {:?}: {}", i, op, d));
                 return true;
